@@ -58,7 +58,7 @@ theorem covered_scalar (last fst : Bool) (p n : Nat) (hp : isScalarPrefixC p = t
     have := ((goodOp_scalar p n hp).any last)
     cases fst with
     | true => simpa [joinInner] using this.toFirst
-    | false => simpa [joinInner] using this.notFirst
+    | false => simpa [joinInner] using this.toRest
   · have hsp := showNat_ne_sp n
     simp only [processOperand, hsp, processRegister, expectOp, expectReg]
     simp [lower, lowerTxt1]
@@ -106,7 +106,7 @@ theorem covered_int (last fst : Bool) (i : IntA) : CoveredOp last fst (.int i) :
     have := ((goodOp_int i).any last)
     cases fst with
     | true => simpa [joinInner] using this.toFirst
-    | false => simpa [joinInner] using this.notFirst
+    | false => simpa [joinInner] using this.toRest
   · simp [processOperand, processImmediate_int, expectOp]
 
 end OsacaVerif.ParseA64
